@@ -109,6 +109,30 @@ func RecordNames(P *Program, funcs []string) {
 		pars[n] = strings.Join(ns, ",")
 	}
 	all["__params__"] = pars
+	// ... and the names of the results, which a clause may use (`newTokenDenom == denom`) and which stay
+	// meaningful when the function stops naming its results
+	ress := all["__results__"]
+	if ress == nil {
+		ress = map[string]string{}
+	}
+	for n, fn := range P.Funcs {
+		if fn == nil || fn.Parent() != nil || len(fn.Blocks) == 0 || !inModule(fn) {
+			continue
+		}
+		var ns []string
+		named := false
+		r := fn.Signature.Results()
+		for i := 0; i < r.Len(); i++ {
+			ns = append(ns, r.At(i).Name())
+			if r.At(i).Name() != "" && r.At(i).Name() != "_" {
+				named = true
+			}
+		}
+		if named {
+			ress[n] = strings.Join(ns, ",")
+		}
+	}
+	all["__results__"] = ress
 	consts := all["__consts__"]
 	if consts == nil {
 		consts = map[string]string{}
@@ -745,6 +769,18 @@ func retargetFunc(P *Program, name string) *ssa.Function {
 	}
 	if fn, ok := pool[name]; ok && fn.TypeParams().Len() == 0 {
 		return fn
+	}
+	// a method whose receiver went from value to pointer or back is the same method: same name, same
+	// parameters after the receiver, same results, and no method of that name on the other receiver form
+	if alt := toggleReceiver(name); alt != "" {
+		if fn, ok := pool[alt]; ok && fn.TypeParams().Len() == 0 && len(fn.Blocks) > 0 {
+			if _, both := pool[name]; !both && sameSigBut(fn, loadBaseNames()["__params__"][name]) {
+				retargetMu.Lock()
+				retargeted[fn] = name
+				retargetMu.Unlock()
+				return fn
+			}
+		}
 	}
 	if len(base) == 0 {
 		return nil
@@ -1392,4 +1428,51 @@ func reachablePool(P *Program, pkg string) map[string]*ssa.Function {
 		addFn(fn, 0)
 	}
 	return pool
+}
+
+
+// recordedResultNames: the names the results of the function had when the ledger was recorded (nil when
+// it named none).
+func recordedResultNames(name string) []string {
+	if os.Getenv("GVC_NO_RENAME") != "" {
+		return nil
+	}
+	rec, ok := loadBaseNames()["__results__"][name]
+	if !ok {
+		rec, ok = loadBaseNames()["__results__"][stripTypeArgs(name)]
+	}
+	if !ok || rec == "" {
+		return nil
+	}
+	return strings.Split(rec, ",")
+}
+
+
+// toggleReceiver: "pkg.(T).M" <-> "pkg.(*T).M" ("" for a plain function).
+func toggleReceiver(name string) string {
+	i := strings.Index(name, ".(")
+	if i < 0 {
+		return ""
+	}
+	j := strings.Index(name[i:], ").")
+	if j < 0 {
+		return ""
+	}
+	recv := name[i+2 : i+j]
+	if strings.HasPrefix(recv, "*") {
+		return name[:i+2] + recv[1:] + name[i+j:]
+	}
+	return name[:i+2] + "*" + recv + name[i+j:]
+}
+
+// sameSigBut: fn has the recorded parameter names (receiver first), in order.
+func sameSigBut(fn *ssa.Function, recorded string) bool {
+	if recorded == "" {
+		return false
+	}
+	var ns []string
+	for _, p := range fn.Params {
+		ns = append(ns, p.Name())
+	}
+	return strings.Join(ns, ",") == recorded
 }
